@@ -322,13 +322,13 @@ def _key(case, value, got):
 def run_shard(ctx):
     @given(cases())
     def test(case):
-        check_case(ctx, case)
+        runner.guarded(ctx, check_case, case)
 
     runner.drive(ctx, test, ctx.n(12000, 120000))
 
     @given(tz_cases())
     def test_tz(case):
-        check_tz_case(ctx, case)
+        runner.guarded(ctx, check_tz_case, case)
 
     runner.drive(ctx, test_tz, ctx.n(2400, 16000))
 
@@ -342,7 +342,7 @@ def replay(ctx, case):
         return None
     case = decode_case(case)
     try:
-        check_case(ctx, case)
+        runner.guarded(ctx, check_case, case)
     except runner.Violation as v:
         return v.msg
     return None
